@@ -10,6 +10,8 @@ JS_SNIPPETS = [
     b"x.y.z = 1;\nq.y.z = 2;\n",
     b"function f(a,b) {\n return a.c + b.c;\n}\nf(1, 2);\n",
     b"{\n\n}\nfoo.bar();\n",
+    b"function foo(a) {\n  x = a;\n}\np = foo(1)\nq = foo(2)\nr = foo(3)\n",
+    b"a.b.c = 1;\na.b.d = 2;\ne.b.c = 3;\n",
 ]
 BRACE_SNIPPETS = [b"{\n\n}\n", b"a\n{\n \n}\nb\n", b"x{\n}y\n{\n}\n"]
 
@@ -82,7 +84,7 @@ def driver_universe(ex, ck, aborts=False, budget=None):
     for data in JS_SNIPPETS:
         for strategy in others[3:]:
             explore(strategy, {}, lines_tc(data), stream=strategy, replay=True,
-                    max_runs=60 if quick else 500, cap=300)
+                    max_runs=(150 if data.count(b"foo(") >= 3 else 60) if quick else 800, cap=300)
     # 2b. deterministic "accept the original and exactly one other file" tests, for every file seen in a
     #     reject-everything run (size-preserving candidates of the move option can restore the original)
     fam = [("minimize-balanced", {"move": True}, [b"{\n", b"a\n", b"}\n", b"b\n", b"b\n"]),
